@@ -32,7 +32,8 @@ def main():
     sel = behaviours[job['part']::job['nparts']]
     mism, counts = [], dict(behaviours=0, steps=0, cursor_steps=0, outcomes={}, sweeps=0, ghosts_made=0, evict_behaviours=0, skipped_embed=0)
     evict = bool(job.get('evict'))
-    if evict:
+    persist = bool(job.get('persist'))      # under the data manager without sweeps: committed at open and at the end
+    if evict or persist:
         from harness import minijar
 
     def embeds(p, root=True):
@@ -70,9 +71,11 @@ def main():
     for bi, beh in enumerate(sel):
         t = cls()
         jar = None
-        if evict:
-            jar = minijar.Jar(minijar.Store())
-            jar.add(t)
+        if evict or persist:
+            store = minijar.Store()
+            jar = minijar.Jar(store)
+            root_oid = jar.add(t)
+        open_embeds = False
         committed = False
         prev_to = None
         cursor, kind, mode = None, 'k', None
@@ -112,11 +115,13 @@ def main():
                     if jar is not None:
                         if prev_to is not None and embeds(prev_to):
                             counts['skipped_embed'] += 1
+                            open_embeds = True
                         else:
                             jar.commit()
-                            committed = True
+                            committed = evict
                             counts['evict_behaviours'] += 1
-                            sweep(jar)
+                            if evict:
+                                sweep(jar)
                     mode = a['mode']
                     # (items twice as often as keys / values: pairs are where a key and a value can come apart)
                     kind = 'k' if is_set else 'ikiv'[(bi + len(hist)) % 4]
@@ -214,6 +219,24 @@ def main():
             t._check()
         except Exception as e:
             mism.append(dict(fam=fam, impl=impl, is_set=is_set, sizes=[job['leaf'], job['internal']], history=hist, kind='checker', real=str(e)[:80]))
+        if persist and prev_to is not None and not open_embeds and not embeds(prev_to) and len(prev_to.get('kids', [])) >= 2:
+            # "holds exactly the contents implied by the mutations" - also for the database: whatever the cursor did while the
+            # tree was being changed, the changes are still announced; a fresh reader sees the writer's contents.  (Trees
+            # that were or end as a one-leaf root, or have a non-root single-leaf node at a commit, are left out: finding D18)
+            try:
+                jar.commit()
+                t2 = minijar.Jar(store).get(root_oid)
+                wk = [emb.rk(x) for x in t.keys()]
+                rk_ = [emb.rk(x) for x in t2.keys()]
+                counts['persist_checked'] = counts.get('persist_checked', 0) + 1
+                if wk != rk_:
+                    mism.append(dict(fam=fam, impl=impl, is_set=is_set, sizes=[job['leaf'], job['internal']], history=hist,
+                                     kind='reader-differs-after-cursor-use', model=wk, real=rk_))
+                else:
+                    t2._check()
+            except Exception as e:
+                mism.append(dict(fam=fam, impl=impl, is_set=is_set, sizes=[job['leaf'], job['internal']], history=hist,
+                                 kind='commit-after-cursor-use', real='%s: %s' % (type(e).__name__, str(e)[:80])))
         del cursor
         if len(mism) > 40:
             break
